@@ -1684,7 +1684,10 @@ async fn emit_event(
 #[cfg(rip_verif)]
 fn verif_emit_point(name: &'static str, event: &Event) {
     rip_kernel::verif::point(name, || {
-        serde_json::json!({"stream": event.stream_id(), "sk": event.stream_kind(), "seq": event.seq})
+        let kind = serde_json::to_value(&event.kind)
+            .ok()
+            .and_then(|v| v.get("type").and_then(|t| t.as_str()).map(str::to_string));
+        serde_json::json!({"stream": event.stream_id(), "sk": event.stream_kind(), "seq": event.seq, "kind": kind})
     });
 }
 
